@@ -68,6 +68,10 @@ type concExec struct {
 	slowStalled bool // the reader has reached its data read and is stalled (or is done)
 	slowN       int
 	gcWrites    int64 // data-file writes issued by GC passes so far
+	rotatedAt   int64 // gcWrites when the destination was first seen rotated onto the source file
+	cancelPlaced bool
+	rotSeen      bool
+	firstDst     int
 	slowPath    string // data file and offset of the record the slow reader looked up
 	slowOff     int64
 	slowCovered bool   // the pass has written a record over that position
@@ -157,6 +161,23 @@ func genConcPlan(prop string, seed uint64, tier string) *Plan {
 	maxPerKey := 60
 	perKey := map[int]int{}
 	// preload (sequential, before the concurrent phase)
+	earlyRestartAt := 0
+	if prop == "C05" && r.Bool(1, 4) {
+		earlyRestartAt = r.Range(1, 4)
+		p.Extra["earlyRestart"] = 1
+		if r.Bool(2, 3) {
+			// layout for "the destination fills up in the middle of a source file": a short file 0,
+			// then files of 8 or 16 one-block records of mostly distinct keys, so that the live
+			// records of file 1 do not all fit into what is left of file 0
+			wide = true
+			c.BodyMax = r.Pick64(300, 512)
+			c.DataFileMax = r.Pick64(2048, 2048, 4096)
+			c.normalize()
+			p.Keys = genKeys(r, c, r.Range(18, 30), 0) // more keys than preload writes: most records stay live
+			p.Extra["overflowLayout"] = 1
+			nClients = r.Range(1, 2) // (few concurrent overwrites: the preload's records stay live)
+		}
+	}
 	if prop == "C05" || prop == "C17" {
 		n := r.Range(6, 30)
 		if wide {
@@ -165,6 +186,9 @@ func genConcPlan(prop string, seed uint64, tier string) *Plan {
 		for i := 0; i < n; i++ {
 			id++
 			op := Op{ID: id, Kind: "set", K: r.Intn(len(p.Keys))}
+			if earlyRestartAt > 0 && i < earlyRestartAt+20 && r.Bool(3, 4) {
+				op.K = i % len(p.Keys) // mostly distinct keys in the first files
+			}
 			op.V = ValSpec{Class: r.Pick(VConst, VText, VRandom), Len: r.Pick(10, 100, 200, 250, int(c.BodyMax) - 1), Seed: uint32(r.U64())}
 			if wide {
 				op.V.Len = r.Pick(10, 60, 150)
@@ -176,6 +200,12 @@ func genConcPlan(prop string, seed uint64, tier string) *Plan {
 				op = Op{ID: id, Kind: "flush"}
 			}
 			p.Ops = append(p.Ops, op)
+			if earlyRestartAt > 0 && i+1 == earlyRestartAt {
+				// a clean restart after a few records leaves a short first data file behind: a pass
+				// that starts above it appends to that earlier, non-full file first
+				id++
+				p.Ops = append(p.Ops, Op{ID: id, Kind: "restart"})
+			}
 		}
 	}
 	for ci := 0; ci < nClients; ci++ {
@@ -254,6 +284,13 @@ func genConcPlan(prop string, seed uint64, tier string) *Plan {
 	if prop == "C05" || prop == "C17" {
 		id++
 		gc := Op{ID: id, Kind: "gc", At: r.Range(0, 60), GCBucket: c.Served[0], GCStart: r.Pick(-1, 0, 0, 0, 1), GCEnd: r.Pick(-1, -1, 0, 1, 2, 5), GCDays: 0, Merge: r.Bool(1, 3)}
+		if earlyRestartAt > 0 {
+			gc.GCStart = r.Pick(1, 1, 1, 2)
+			gc.GCEnd = r.Pick(-1, -1, 1, 2, 5)
+			if p.Extra["overflowLayout"] == 1 {
+				gc.GCStart = 1
+			}
+		}
 		env = append(env, gc)
 		if prop == "C17" || r.Bool(1, 4) {
 			id++
@@ -286,8 +323,11 @@ func genConcPlan(prop string, seed uint64, tier string) *Plan {
 	}
 	p.Clients = append(p.Clients, env) // last list = environment
 	p.Extra["env"] = 1
-	if prop == "C05" && r.Bool(1, 4) {
-		p.Extra["cancelAtWrite"] = int64(r.Pick(1, 2, 3, 5, 8, 13))
+	if prop == "C05" && (r.Bool(1, 4) || (p.Extra["earlyRestart"] == 1 && r.Bool(1, 2))) {
+		p.Extra["cancelAtWrite"] = int64(r.Pick(1, 2, 3, 5, 8, 13, -1, -1, -2, -3))
+		if p.Extra["overflowLayout"] == 1 {
+			p.Extra["cancelAtWrite"] = int64(r.Pick(-1, -1, -2, -3, 5))
+		}
 	}
 	if len(p.Ops) > 0 && ((prop != "C04" && r.Bool(1, 4)) || (prop == "C04" && r.Bool(1, 6))) {
 		// the concurrent phase starts right after a clean restart: clients (and the GC request)
@@ -328,11 +368,50 @@ func (x *concExec) maybeInject(g *Gen, ev *simrt.FSEvent) {
 		return
 	}
 	x.gcWrites++
-	if k := x.plan.Extra["cancelAtWrite"]; k > 0 && x.gcWrites == k && x.plan.Prop == "C05" {
+	trigger := false
+	if h := g.H.VerifGCHistory(x.plan.Cfg.Served[0]); len(h) > 0 {
+		st := h[len(h)-1]
+		if x.gcWrites == 1 {
+			x.firstDst = st.Dst
+		}
+		if st.Dst == st.Src && st.Dst != x.firstDst && !x.rotSeen {
+			x.rotSeen = true
+			x.out.probe("gc-destination-rotated-onto-source")
+		}
+	}
+	if k := x.plan.Extra["cancelAtWrite"]; k != 0 && x.plan.Prop == "C05" && !x.cancelPlaced {
+		if k > 0 {
+			trigger = x.gcWrites == k
+		} else if h := g.H.VerifGCHistory(x.plan.Cfg.Served[0]); len(h) > 0 {
+			// state-triggered: the destination has filled up in the middle of a source file and
+			// rotated onto that very file, which is from now on rewritten in place; the cancel
+			// arrives -k-1 relocation writes later
+			st := h[len(h)-1]
+			if st.Dst == st.Src && st.Dst != x.firstDst && x.rotatedAt == 0 {
+				x.rotatedAt = x.gcWrites
+			}
+			trigger = x.rotatedAt > 0 && x.gcWrites == x.rotatedAt+(-k-1)
+		}
+	}
+	if trigger {
+		x.cancelPlaced = true
 		// a cancel request placed inside the pass: right before its k-th relocation write, i.e. in
 		// the middle of a source file (a legal instant for an administrator's request)
 		gcCancel(g, x.plan.Cfg.GCWeb, x.plan.Cfg.Served[0])
 		x.out.probe("gc-cancel-placed-at-relocation-write")
+		if h := g.H.VerifGCHistory(x.plan.Cfg.Served[0]); len(h) > 0 {
+			st := h[len(h)-1]
+			switch {
+			case st.Dst == st.Src && st.Dst == x.firstDst:
+				x.out.probe("gc-cancel-placed:in-place-from-the-start")
+			case st.Dst == st.Src:
+				x.out.probe("gc-cancel-placed:destination-rotated-onto-source")
+			case st.Dst < st.Begin:
+				x.out.probe("gc-cancel-placed:destination-below-range")
+			default:
+				x.out.probe("gc-cancel-placed:other")
+			}
+		}
 	}
 	if x.slowPath != "" {
 		// (the previous event's write is on disk by now)
@@ -533,10 +612,55 @@ func runConc(plan *Plan, tape *simrt.Tape) *Outcome {
 	nClients := len(plan.Clients) - 1
 	env := plan.Clients[nClients]
 	finished := false
+	// the preload may contain clean restarts: every segment but the last is a process generation of its own
+	preOps := plan.Ops
+	for {
+		cut := -1
+		for i, op := range preOps {
+			if op.Kind == "restart" {
+				cut = i
+				break
+			}
+		}
+		if cut < 0 {
+			break
+		}
+		seg := preOps[:cut]
+		preOps = preOps[cut+1:]
+		okSeg := false
+		_, resSeg := sim.Run(func(g *Gen) {
+			x.g = g
+			for _, op := range seg {
+				if op.Kind == "flush" {
+					g.H.VerifFlush(true)
+					g.W.Advance(1500 * time.Millisecond)
+				} else {
+					x.doOp(-1, op)
+				}
+			}
+			if x.viol == nil {
+				g.H.Close()
+				okSeg = true
+			}
+		})
+		if !okSeg || resSeg.Status != simrt.StatusDone {
+			if x.viol == nil && resSeg.Status != simrt.StatusStepCap {
+				x.fail("R-"+simrt.StatusName(resSeg.Status), "preload", resSeg.String())
+			}
+			if resSeg.Status == simrt.StatusStepCap {
+				out.Inconclusive = "stepcap"
+			}
+			out.absorb(sim)
+			out.Violation = x.viol
+			out.Tapes = tape.Snapshot()
+			return out
+		}
+		x.out.probe("preload-restart")
+	}
 	preload := func(g *Gen) {
 		w := g.W
 		// preload, sequentially
-		for _, op := range plan.Ops {
+		for _, op := range preOps {
 			switch op.Kind {
 			case "flush":
 				g.H.VerifFlush(true)
